@@ -47,6 +47,20 @@ theorem C27_cache_transparent (es : List (Req × Bool × List Act)) :
     ∀ sb ∈ history [] es, sb.2 = render sb.1 :=
   history_ok es [] (by intro kl h; simp at h)
 
+/-- **Non-interference of concurrent responses.**  What is written on a connection depends only on that
+    connection's own exchange: for two responses written at the same time (any interleaving the harness
+    can schedule) each connection's bytes are exactly the bytes of its own exchange run alone.  Trivial in
+    the model — which has no shared mutable state besides the (transparent) Status-Line cache — but it is
+    the claim the correspondence run ties to the code with the interleaved `p` cases. -/
+theorem C27_noninterference (a b : Req × Bool × List Act) :
+    (pairRun a b).map Prod.snd = [render (respond a.1 a.2.1 a.2.2), render (respond b.1 b.2.1 b.2.2)] := by
+  obtain ⟨ra, ka, sa⟩ := a
+  obtain ⟨rb, kb, sb⟩ := b
+  have h0 : CacheOK [] := by intro kl h; simp at h
+  have h1 := renderCached_ok [] (respond ra ka sa) h0
+  have h2 := renderCached_ok (renderCached [] (respond ra ka sa)).2 (respond rb kb sb) h1.2
+  simp [pairRun, history, h1.1, h2.1]
+
 /-! ### Layers of `C27_parses` (reference parser applied to the rendered bytes)
 
   Proved so far, each at full strength for its layer: line splitter, status line, Content-Length body,
